@@ -254,6 +254,17 @@ func graphs(quick bool) []trav.GraphSpec {
 	for _, t := range trav.GraphTrees(3, []ref.Val{ref.Null(), ref.Bool(false)}) {
 		out = append(out, trav.GraphSpec{Tree: t})
 	}
+	// a 12-element list and keys that are string-prefixes of one another
+	wide := ref.List()
+	for i := 0; i < 12; i++ {
+		if i == 1 || i == 10 || i == 11 {
+			wide.L = append(wide.L, ref.Map(ref.E("a", ref.Int(int64(i)))))
+		} else {
+			wide.L = append(wide.L, ref.Int(int64(i)))
+		}
+	}
+	pre := ref.Map(ref.E("a", ref.List(ref.Int(1))), ref.E("ab", ref.List(ref.Int(2), ref.Int(3))), ref.E("abc", ref.Map(ref.E("a", ref.Int(4)))), ref.E("10", wide))
+	out = append(out, trav.GraphSpec{Tree: wide}, trav.GraphSpec{Tree: wide, Cuts: []int{2, 12}}, trav.GraphSpec{Tree: pre}, trav.GraphSpec{Tree: pre, Cuts: []int{1, 3}})
 	// combs: siblings before and after the deep child at every depth, so that a path retained from
 	// one visit is resolved after the walk went on to its siblings and their descendants
 	depth := 6
@@ -326,7 +337,16 @@ func Main(r *core.Run) {
 		}
 	}
 	rec(nil)
-	r.Rule(fmt.Sprintf("%d graphs (trees ≤%d nodes, every cut into blocks, dangling links, link chains); (1) every visit of every walk with %d selectors and of WalkLocal: reported path (as reported and re-parsed) → Get/Focus/stepwise = visited node; (2) every node position addressed by its own keys/indices in string, int and parsed form; (3) every path of ≤3 segments over %v (%d paths) vs the reference resolver; (4) every segment string ≤3 bytes over {a / . 0 é-bytes NUL} and every path of ≤3 such segments through String/ParsePath, Equals as an equivalence; (5) paths as values: every program of path operations up to the depth in bounds.path_algebra, every live path compared with its model after every step; (6) typed nodes: both views of every family root type's richest values (reflection binding) walked, every visit's path resolved by Get and stepwise. Non-trivial = path of ≥2 segments or crossing a link; distinct by construction.", len(gs), map[bool]int{true: 4, false: 5}[quick], len(ss), segAlphabet, len(paths)))
+	// segments that look like numerals to a lenient parser but are not decimal indices: on a list they
+	// do not exist (prefixes 0x 0b 0o, digit separators, exponents); paths of ≤2 segments with one of them
+	odd := []string{"0x1", "0X1", "0b1", "0o1", "1_0", "0_1", "1e0", "0x0", "1_1"}
+	for _, o := range odd {
+		paths = append(paths, []string{o})
+		for _, a := range []string{"a", "0", "1", "10", "11"} {
+			paths = append(paths, []string{a, o}, []string{o, a})
+		}
+	}
+	r.Rule(fmt.Sprintf("%d graphs (trees ≤%d nodes, every cut into blocks, dangling links, link chains); (1) every visit of every walk with %d selectors and of WalkLocal: reported path (as reported and re-parsed) → Get/Focus/stepwise = visited node; (2) every node position addressed by its own keys/indices in string, int and parsed form; (3) every path of ≤3 segments over %v plus paths holding one numeral-looking non-index (0x1, 0b1, 1_0, 1e0 …) (%d paths) vs the reference resolver; (4) every segment string ≤3 bytes over {a / . 0 é-bytes NUL} and every path of ≤3 such segments through String/ParsePath, Equals as an equivalence; (5) paths as values: every program of path operations up to the depth in bounds.path_algebra, every live path compared with its model after every step; (6) typed nodes: both views of every family root type's richest values (reflection binding) walked, every visit's path resolved by Get and stepwise. Non-trivial = path of ≥2 segments or crossing a link; distinct by construction.", len(gs), map[bool]int{true: 4, false: 5}[quick], len(ss), segAlphabet, len(paths)))
 	r.Assume("non-canonical numerals on lists (\"01\", \"+1\") are unspecified: only Get ⇔ Focus ⇔ stepwise agreement is required there")
 	core.ParallelFor(len(gs), func(gi int) {
 		b := trav.Build(gs[gi])
